@@ -310,7 +310,10 @@ func progressPhase(run *vkit.Run, n int) *feedModel {
 			feed.record(k64, reported)
 			hist = append(hist, rr{k, between, before, after, u64s(cu), u64s(reported)})
 			if reported != k64 {
-				sig := fmt.Sprintf("progress: polling round advanced the store by k=%d but reported %s", k64, u64s(reported))
+				sig := "progress: polling round reported less progress than the store advanced by"
+				if reported > k64 {
+					sig = "progress: polling round reported more progress than the store advanced by"
+				}
 				if k64 > 0 && reported == -k64 {
 					sig = "progress: polling round fetched k>0 certificates but reported progress = 2^64-k (before-after instead of after-before; unsigned underflow)"
 				} else if k64 == 0 {
@@ -671,7 +674,7 @@ func checkWaits(run *vkit.Run, sc scenario, rounds []roundRec, feed *feedModel, 
 			sig = "wait: next poll came earlier than predicted interval minus the time the round's requests took"
 		case W == base+max(e, base/2) && e < base/2:
 			sig = "wait: extended by half of the remaining interval although the round's own requests took less (extension = max(request time, half) instead of at most half)"
-		case W == base+max(e, base/2):
+		case W == base+max(e, base/2) && a.Local:
 			sig = "wait: extended by the full request time although that exceeds half of the remaining interval (extension = max(request time, half) instead of at most half)"
 		default:
 			sig = "wait: next poll came later than predicted interval minus elapsed plus min(request time, half of that)"
